@@ -1,1 +1,2 @@
 //! Reference models (oracles), written from the property statements.
+pub mod flow;
